@@ -1696,3 +1696,18 @@ def string_from_utf16(I, args, callee):
     if 'lossy' in callee:
         return StringV(out)
     return ok(StringV(out))
+
+
+@model('[]::strip_prefix', '[]::strip_suffix')
+def slice_strip(I, args, callee):
+    s = as_slice(args[0])
+    a, b = s.items(), items_of(args[1])
+    if len(b) > len(a):
+        return none()
+    if 'prefix' in callee:
+        if I.decide(seq_eq(I, a[:len(b)], b)):
+            return some(SliceRef(s.arr, s.start + len(b), s.length - len(b), s.is_str))
+        return none()
+    if I.decide(seq_eq(I, a[len(a) - len(b):], b)):
+        return some(SliceRef(s.arr, s.start, s.length - len(b), s.is_str))
+    return none()
